@@ -8,7 +8,7 @@ sys.path.insert(0, os.path.dirname(os.path.dirname(os.path.abspath(__file__))))
 from qsverif.model import load_sources, fingerprint   # noqa
 
 root = sys.argv[1] if len(sys.argv) > 1 else '/repo'
-out = {'classes': {}, 'modfuncs': {}, 'prints': {}}
+out = {'classes': {}, 'modfuncs': {}, 'prints': {}, 'fields': {}}
 for rel, src in sorted(load_sources(root).items()):
     t = ast.parse(src)
     mod = rel[:-3].replace('/', '.')
@@ -16,6 +16,8 @@ for rel, src in sorted(load_sources(root).items()):
         if isinstance(st, ast.ClassDef):
             q = '%s.%s' % (mod, st.name)
             out['classes'][q] = {}
+            out['fields'][q] = sorted({n.attr for n in ast.walk(st) if isinstance(n, ast.Attribute) and isinstance(n.ctx, ast.Store) and isinstance(n.value, ast.Name) and n.value.id == 'self'}
+                                      | {t.id for b in st.body if isinstance(b, ast.Assign) for t in b.targets if isinstance(t, ast.Name)})
             for m in st.body:
                 if isinstance(m, ast.FunctionDef):
                     out['classes'][q][m.name] = [a.arg for a in m.args.posonlyargs + m.args.args + m.args.kwonlyargs]
